@@ -94,7 +94,7 @@ def run(ctx, spec):
 PROPS = {"C13": dict(
     lean_modules=["Vore.Props.C13"],
     theorems=["Vore.C13_relocate_atoms", "Vore.C13_concat", "Vore.C13_sub_transparent", "Vore.C13_call_transparent", "Vore.C13_global_transparent", "Vore.C13_vm_follows_spec",
-              "Vore.C13_transparent_in_context", "Vore.C13_same_flattening_same_matches", "Vore.C13_spellings_same_vm_results"],
+              "Vore.C13_transparent_in_context", "Vore.C13_same_flattening_same_matches", "Vore.C13_spellings_same_vm_results", "Vore.C13_meaning_is_expansion"],
     run=run,
     manifest=dict(
         text="Proved in Lean: the result of a multi-command program is the concatenation of its commands' results "
@@ -112,7 +112,10 @@ PROPS = {"C13": dict(
              "matches (C13_same_flattening_same_matches) and the same VM results under every amount clause whenever the "
              "specification answers (C13_spellings_same_vm_results; the three spellings of the property flatten to the same "
              "expression: proved for a concrete instance by rfl, computed by the driver for every generated triple and "
-             "counted in the evidence). PARTIAL: that `in place`, `{B} = s .. s` and `set s to pattern B .. s` ALWAYS flatten "
+             "counted in the evidence). Moreover, when the flattening leaves no call and no predicate, the "
+             "matches ARE those of the call-free pattern with every definition written out in place, whose specification "
+             "is the declarative list reading Spec.outs (C13_meaning_is_expansion). PARTIAL: that `in place`, `{B} = s .. s` "
+             "and `set s to pattern B .. s` ALWAYS flatten "
              "alike is checked per generated triple, not proved for all B and contexts. Metamorphic correspondence: the three spellings in 6 contexts with 1-3 "
              "references must find the same spans on the implementation, and each equals the VM model and Spec.findAllR "
              "(bytecode of the two-pass generator compared with the real generator's as L4).",
